@@ -26,12 +26,18 @@ ASSUMPTIONS = ['the reset request\'s own hit may be counted in the totals it ret
 REQUIRED_REACH = ['A:reports-compared', 'A:resets', 'A:outcome:200', 'A:outcome:redirect', 'A:outcome:raised-4xx',
                   'A:outcome:returned-4xx', 'A:outcome:uncaught', 'A:outcome:404', 'A:outcome:405', 'A:outcome:fallthrough',
                   'A:outcome:slash-redirect', 'B:stores-driven-past-capacity', 'B:shrink-then-grow', 'B:ops-checked',
-                  'B:route-stat-reservoir', 'B:default-capacity-filled', 'A:count-beyond-sample-capacity']
+                  'B:route-stat-reservoir', 'B:default-capacity-filled', 'A:count-beyond-sample-capacity', 'A:overlapping-requests', 'B:values:int-from-zero', 'B:values:empty-tuple-first', 'B:values:none-first']
 NSHARDS = 16
 
 ROUTES = [('/ok', 'ok'), ('/item/<x>', 'ok'), ('/moved', 'redirect'), ('/deny', 'raise403'), ('/gone', 'return410'),
           ('/crash', 'uncaught'), ('/nb/<x>', 'nb404'), ('/nb/<x>/', 'never'), ('/nb2/a', 'nb404'), ('/nb2/<y>', 'ok'),
-          ('/nb3/<x>', 'nb404'), ('/flaky/<x>', 'flaky'), ('/only-get', 'ok-get'), ('/branch/', 'ok'), ('/teapot', 'return418'), ('/keyerr', 'uncaught-key')]
+          ('/nb3/<x>', 'nb404'), ('/flaky/<x>', 'flaky'), ('/only-get', 'ok-get'), ('/branch/', 'ok'), ('/teapot', 'return418'), ('/keyerr', 'uncaught-key'),
+          # patterns outside ASCII; two of them differ only in their Unicode spelling (precomposed / decomposed): different
+          # patterns, different request paths, different routes
+          ('/caf\u00e9', 'ok'), ('/cafe\u0301', 'ok'), ('/\u212bng/<x>', 'raise403'), ('/\u00c5ng/<x>', 'ok'),
+          # a request that is still being served while others come and go
+          ('/hold/<x>', 'hold')]
+_holds = {}
 
 
 _clock = {'offset': 0.0, 'installed': False}
@@ -97,6 +103,14 @@ def build_app():
                     raise {'400': errors.BadRequest, '401': errors.Unauthorized, '404': errors.NotFound, '409': errors.Conflict,
                            '410': errors.Gone, '429': errors.TooManyRequests, '502': errors.BadGateway, '503': errors.ServiceUnavailable}[how[5:]]('flaky')
                 return Response('flaky fine', mimetype='text/plain')
+            if beh == 'hold':
+                gate = _holds.get(kw.get('x'))
+                if gate is not None:
+                    gate['entered'].set()
+                    gate['release'].wait(30)
+                if kw.get('x', '').startswith('crash'):
+                    raise RuntimeError('held, then crashed')
+                return Response('held', mimetype='text/plain')
             if beh in ('ok', 'ok-get', 'never'):
                 return Response('fine', mimetype='text/plain')
             if beh == 'redirect':
@@ -163,6 +177,9 @@ REQS = [
     ('200', 'GET', '/flaky/odd-resp-299', [('/flaky/<x>', '299')]), ('returned-4xx', 'GET', '/flaky/odd-resp-499', [('/flaky/<x>', '499')]),
     ('raised-4xx', 'GET', '/flaky/odd-raise-420', [('/flaky/<x>', '420')]), ('returned-4xx', 'GET', '/flaky/odd-ret-444', [('/flaky/<x>', '444')]),
     ('raised-4xx', 'POST', '/flaky/odd-raise-599', [('/flaky/<x>', '599')]), ('200', 'GET', '/flaky/odd-resp-209', [('/flaky/<x>', '209')]),
+    ('200', 'GET', '/caf\u00e9', [('/caf\u00e9', '200')]), ('200', 'GET', '/cafe\u0301', [('/cafe\u0301', '200')]),
+    ('200', 'GET', '/caf\u00e9', [('/caf\u00e9', '200')]), ('raised-4xx', 'GET', '/\u212bng/1', [('/\u212bng/<x>', '403')]),
+    ('200', 'GET', '/\u00c5ng/1', [('/\u00c5ng/<x>', '200')]),
 ]
 
 
@@ -193,7 +210,43 @@ def part_a_history(sh, rng, steps):
 
     for step in range(steps):
         r = rng.random()
-        if r < 0.72:
+        if r < 0.06:
+            # one request is held inside its endpoint while one to three others are served completely; then it finishes
+            import threading
+            hx = ('crash-%d' if rng.chance(0.3) else 'h-%d') % step
+            gate = _holds[hx] = {'entered': threading.Event(), 'release': threading.Event()}
+            box = {}
+
+            def held():
+                box['ex'] = probe.request(app, 'GET', '/hold/' + hx, token='held%d' % step, trace=spies.new_trace())
+            th = threading.Thread(target=held)
+            th.start()
+            if not gate['entered'].wait(30):
+                gate['release'].set()
+                th.join(30)
+                raise RuntimeError('held request never reached its endpoint')
+            inner = [rng.pick(REQS) for _ in range(rng.randint(1, 3))]
+            try:
+                for kind, method, path, reached in inner:
+                    ex = probe.request(app, method, path, token='t%d' % step, trace=spies.new_trace())
+                    log.append([method, path, 'while /hold/%s is being served' % hx])
+                    if ex.exc is not None:
+                        fail('exception-escaped', '%s %s: %s escaped' % (method, path, probe.safe_repr(ex.exc)))
+                        return
+                    for p, st in reached:
+                        model[(p, st)] += 1
+            finally:
+                gate['release'].set()
+                th.join(30)
+                _holds.pop(hx, None)
+            log.append(['GET', '/hold/' + hx])
+            if box.get('ex') is None or box['ex'].exc is not None:
+                fail('exception-escaped', 'GET /hold/%s: %s' % (hx, probe.safe_repr(box['ex'].exc) if box.get('ex') else 'no answer'))
+                return
+            model[('/hold/<x>', 'RuntimeError' if hx.startswith('crash') else '200')] += 1
+            sh.hit('A:overlapping-requests')
+            nontrivial = True
+        elif r < 0.72:
             kind, method, path, reached = rng.pick(REQS)
             tr = spies.new_trace()
             ex = probe.request(app, method, path, token='t%d' % step, trace=tr)
@@ -320,6 +373,21 @@ def install_contract():
         _contract['lib'] = 'unavailable: %r' % e
 
 
+VKINDS = ['str', 'str', 'int-from-zero', 'float-from-zero', 'empty-tuple-first', 'empty-str-first', 'none-first', 'false-first', 'empty-bytes-first']
+
+
+def value_of(vkind, k):
+    """the k-th value (k from 1) a history adds: unique within the history; the first ones are falsy for most kinds - a value
+    is a value whatever its truth value"""
+    if vkind == 'int-from-zero':
+        return k - 1
+    if vkind == 'float-from-zero':
+        return (k - 1) * 0.5
+    if k == 1 and vkind != 'str':
+        return {'empty-tuple-first': (), 'empty-str-first': '', 'none-first': None, 'false-first': False, 'empty-bytes-first': b''}[vkind]
+    return 'v%d' % k
+
+
 def part_b_history(sh, rng, seed, default_cap=False):
     from clastic.middleware.stats import Reservoir
     random.seed(seed)
@@ -329,6 +397,8 @@ def part_b_history(sh, rng, seed, default_cap=False):
         r = Reservoir()
     added, n_added, counter = set(), 0, [0]
     initial = 0
+    vkind = 'str' if default_cap else rng.pick(VKINDS)
+    sh.hit('B:values:' + vkind)
     if default_cap:
         pass
     else:
@@ -336,7 +406,7 @@ def part_b_history(sh, rng, seed, default_cap=False):
         if rng.chance(0.35):
             # values handed to the constructor arrive like any others
             initial = rng.pick([0, 1, cap - 1, cap, cap + 1, cap * 3, cap * 10])
-            data = ['v%d' % (i + 1) for i in range(initial)]
+            data = [value_of(vkind, i + 1) for i in range(initial)]
             counter[0] = n_added = initial
             added.update(data)
             try:
@@ -354,7 +424,7 @@ def part_b_history(sh, rng, seed, default_cap=False):
 
     def fail(key, what):
         sh.violation('C19/' + key, '%s [ops: %r, random.seed(%d)]' % (what, ops[-15:], seed),
-                     {'part': 'B', 'ops': list(ops), 'seed': seed, 'default_cap': default_cap})
+                     {'part': 'B', 'ops': list(ops), 'seed': seed, 'default_cap': default_cap, 'vkind': vkind})
 
     def check(after):
         sh.hit('B:ops-checked')
@@ -391,13 +461,13 @@ def part_b_history(sh, rng, seed, default_cap=False):
             burst = rng.pick([1, 1, 2, cap, cap * 3, cap * 10, cap * 40]) if not default_cap else rng.pick([cap // 2, cap, 3000])
             for _ in range(burst):
                 counter[0] += 1
-                v = 'v%d' % counter[0]
+                v = value_of(vkind, counter[0])
                 added.add(v)
                 n_added += 1
                 try:
                     r.add(v)
                 except Exception as e:
-                    ops.append(['add', v])
+                    ops.append(['add', repr(v)])
                     fail('store-raises:add', 'add(%r) raised %s: %s' % (v, type(e).__name__, e))
                     return
             ops.append(['add x%d' % burst])
@@ -488,7 +558,8 @@ def replay(sh, case, spec):
         return
     if case.get('part') == 'A':
         app, mw = build_app()
-        for method, path in case['log']:
+        for entry in case['log']:
+            method, path = entry[:2]
             probe.request(app, method, path, 'format=json', trace=spies.new_trace())
         sh.notes['report'] = str(read_report(app))
         rng = Rng(0, 'replay')
@@ -506,14 +577,14 @@ def replay(sh, case, spec):
                     r = Reservoir(op[1]) if not case.get('default_cap') else Reservoir()
                     if len(op) > 2 and op[2]:
                         n = op[2]
-                        r = Reservoir(op[1], data=['v%d' % (i + 1) for i in range(n)])
+                        r = Reservoir(op[1], data=[value_of(case.get('vkind', 'str'), i + 1) for i in range(n)])
                 elif op[0].startswith('add x'):
                     for _ in range(int(op[0][5:])):
                         n += 1
-                        r.add('v%d' % n)
+                        r.add(value_of(case.get('vkind', 'str'), n))
                 elif op[0] == 'add':
                     n += 1
-                    r.add(op[1])
+                    r.add(value_of(case.get('vkind', 'str'), n))
                 elif op[0] == 'resize':
                     r.resize(op[1])
             sh.notes['final'] = repr(r)
